@@ -242,6 +242,37 @@ impl WriterRig {
     net::capture_take()
   }
 
+  /// A datagram arrives from a reader: parsed by the real `Message::read_from_buffer`; every
+  /// ACKNACK / NACKFRAG in it is handed to `Writer::handle_ack_nack` with the source prefix of the
+  /// message header (what MessageReceiver + DPEventLoop do).  `forward_nackfrag` = false mirrors
+  /// the MessageReceiver, which does not forward NACKFRAGs.
+  pub fn inject(&mut self, datagram: &[u8], forward_nackfrag: bool) -> Vec<net::Sent> {
+    use crate::{
+      messages::submessages::submessage::ReaderSubmessage,
+      rtps::{Message, SubmessageBody},
+    };
+    self.begin();
+    if let Ok(msg) = Message::read_from_buffer(&bytes::Bytes::copy_from_slice(datagram)) {
+      let prefix = msg.header.guid_prefix;
+      for sub in msg.submessages {
+        match sub.body {
+          SubmessageBody::Reader(ReaderSubmessage::AckNack(an, _)) => {
+            self
+              .writer
+              .handle_ack_nack(prefix, &AckSubmessage::AckNack(an));
+          }
+          SubmessageBody::Reader(ReaderSubmessage::NackFrag(nf, _)) if forward_nackfrag => {
+            self
+              .writer
+              .handle_ack_nack(prefix, &AckSubmessage::NackFrag(nf));
+          }
+          _ => {}
+        }
+      }
+    }
+    net::capture_take()
+  }
+
   pub fn heartbeat_tick(&mut self) -> Vec<net::Sent> {
     self.begin();
     self.writer.handle_heartbeat_tick(false);
